@@ -37,10 +37,13 @@ valid if the number modulo 97 is 1. As such it has two check digits.
 from stdnum.exceptions import *
 
 
+_alphabet = '0123456789ABCDEFGHIJKLMNOPQRSTUVWXYZ0123456789abcdefghijklmnopqrstuvwxyz'
+
+
 def _to_base10(number):
     """Prepare the number to its base10 representation."""
     return ''.join(
-        str(int(x, 36)) for x in number)
+        str(_alphabet.index(x) % 36) for x in number)
 
 
 def checksum(number):
